@@ -82,6 +82,10 @@ def gen_mip(ch):
         a["start"] = s_
     if e_:
         a["end"] = e_
+    if ch.pick("mkt.same_window", [False, True]):   # then some intervals contain no active asset at all
+        for k in ("start", "end"):
+            if k in a:
+                assets[0][k] = a[k]
     if ch.pick("pl.pos", ["last", "first"]) == "first":
         assets.insert(0, a)
     else:
